@@ -257,6 +257,12 @@ ser('hostile_len3_all', ['VF_INLEN=3', 'VF_SHAPE=3'], opts={'oob': '1'})
 ser('roundtrip_all', ['VF_ROUNDTRIP=1', 'VF_SHAPE=3'], tiers=TH, timeout=9000, qcap=3000)
 ser('hostile_len6_all', ['VF_INLEN=6', 'VF_SHAPE=3'], opts={'oob': '1'}, tiers=TH, timeout=9000, qcap=3000)
 
+# ----------------------------------------------------------------------------------------------- C05: anyflow
+AFX = ['babylon/anyflow/builder.cpp', 'babylon/anyflow/graph.cpp', 'babylon/anyflow/vertex.cpp', 'babylon/anyflow/data.cpp', 'babylon/anyflow/dependency.cpp',
+       'babylon/anyflow/closure.cpp', 'babylon/anyflow/executor.cpp', 'babylon/any.cpp', 'babylon/basic_executor.cpp', 'babylon/executor.cpp',
+       'babylon/reusable/memory_resource.cpp', 'babylon/reusable/page_allocator.cpp', 'babylon/concurrent/counter.cpp', 'babylon/new.cpp']
+S('af_chain_inplace', 'anyflow/af.cpp', {'assert': 'C05'}, extra=AFX, xsrc=['anyflow/libmodel.cpp'], cflags=['-D_GLIBCXX_ASSERTIONS'], models=['sc'], bound=8, tiers=('thorough',))
+
 # ----------------------------------------------------------------------------------------------- manifest texts
 LEVEL_TEXT = {
  'C01': 'Real ConcurrentBoundedQueue<two-word payload, VS> IR; client programs of 2-4 threads mixing push/pop/try_/push_n/pop_n/callback variants on capacities 1-2; oracle = exactly-once multiset, per-thread FIFO, fully published payload, try_ success when sequenced after enough completed operations.',
@@ -290,6 +296,8 @@ S('rl_basic', 'vector/rl1.cpp', {'assert': 'C04'}, opts={'clock': 'sec', 'maxsec
 S('rl_wrap', 'vector/rl1.cpp', {'assert': 'C04'}, opts={'clock': 'sec', 'minsec': str((1 << 22) - 512), 'maxsec': str((1 << 22) + 512)})
 S('ht_same_key', 'hashtable/ht1.cpp', {'assert': 'C03'})
 S('ht_find', 'hashtable/ht2.cpp', {'assert': 'C03'})
+S('ht_probe_two_full_groups', 'hashtable/ht_probe.cpp', {'assert': 'C03'}, models=['sc'], bound=100, defs=['VF_FULL_GROUPS=2'])
+S('ht_probe_three_full_groups', 'hashtable/ht_probe.cpp', {'assert': 'C03'}, models=['sc'], bound=100, defs=['VF_FULL_GROUPS=3'], tiers=TH)
 # ----------------------------------------------------------------------------------------------- C20: logging
 LEX = ['babylon/logging/log_entry.cpp', 'babylon/reusable/page_allocator.cpp']
 S('le_sputc_n40', 'logging/le3.cpp', {'assert': 'C20'}, extra=LEX, models=['sc'], bound=200, defs=['VF_N=40'])
